@@ -24,6 +24,7 @@ mod model {
     pub mod num;
     pub mod pos;
     pub mod reader;
+    pub mod tokens;
 }
 mod engine {
     pub mod child;
